@@ -307,6 +307,11 @@ class C20(Property):
         if pred == 'undecided':
             return obs
         pred['detail'] = obs.get('detail')
+        # floats are never compared digit for digit: the exact value of the model and the float of the implementation
+        # agree when they are within 2e-9 of each other (both are shown rounded to nine decimals)
+        po, pn = obs.get('noisy'), pred.get('noisy')
+        if isinstance(po, list) and isinstance(pn, list) and len(po) == len(pn):
+            pred['noisy'] = [o if abs(o - n) <= 2e-9 else n for o, n in zip(po, pn)]
         return pred
 
     def oracle(self, case, obs):
